@@ -354,3 +354,271 @@ Proof.
   unfold render_app. destruct (run_app A inits rows); cbn [bind map_res]; try reflexivity.
   apply render_results_display_only.
 Qed.
+
+(* ================================================================ C. rows: locality and meaning *)
+
+(* what the loop produces for one delta, on its own *)
+Definition row_of (A : arith) (full : bool) (cur : tx -> bytes * bytes) (d : delta) : res (list cell) :=
+  note <- sfl_note A full d ;; render_row A full cur d note.
+
+(* this row is a sale with a (non-zero) superficial loss *)
+Definition row_sfl (d : delta) : bool :=
+  match t_act (d_tx d) with
+  | Sell _ _ _ _ _ _ => is_superficial_loss d
+  | _ => false
+  end.
+Definition row_over (d : delta) : bool :=
+  row_sfl d && match d_sfl d with Some i => sf_over i | None => false end.
+(* "!" : the user's value was forced *)
+Definition row_forced (d : delta) : bool :=
+  match t_act (d_tx d) with
+  | Sell _ _ _ _ _ (Some (_, f)) => f
+  | _ => false
+  end.
+
+Definition cell_at (row : list cell) (col : nat) : cell := nth col row CEmpty.
+Definition cell_suffix (c : cell) : option sflnote := match c with CGain _ n => n | _ => None end.
+Definition cell_has_suffix (c : cell) : bool := match cell_suffix c with Some _ => true | None => false end.
+Definition cell_has_over (c : cell) : bool := match cell_suffix c with Some n => sn_over n | None => false end.
+
+Section Rows.
+  Variable A : arith.
+  Variable full : bool.
+  Variable cur : tx -> bytes * bytes.
+
+  Lemma sfl_note_flags d note :
+    sfl_note A full d = Ok note ->
+    (match note with Some _ => true | None => false end) = row_sfl d /\
+    (match note with Some n => sn_over n | None => false end) = row_over d.
+  Proof.
+    unfold sfl_note, row_over, row_sfl. destruct (t_act (d_tx d)); intros H; try (inversion H; subst; split; reflexivity).
+    destruct (is_superficial_loss d) eqn:Es; [|inversion H; subst; split; reflexivity].
+    destruct (d_sfl d) as [i|]; [|discriminate].
+    bind_as H as p Ep. inversion H; subst. split; reflexivity.
+  Qed.
+
+  Lemma render_step_spec st d st' :
+    render_step A full cur st d = Ok st' ->
+    exists row, row_of A full cur d = Ok row /\ rs_rows st' = rs_rows st ++ [row] /\
+                rs_sfl st' = rs_sfl st || row_sfl d /\ rs_over st' = rs_over st || row_over d.
+  Proof.
+    unfold render_step, row_of. intros H. bind_as H as note En. bind_as H as row Er.
+    exists row. cbn [bind]. split; [exact Er|].
+    destruct (sfl_note_flags _ _ En) as [F1 F2]. inversion H; subst; clear H.
+    destruct note as [n|]; cbn [rs_rows rs_sfl rs_over]; rewrite <- F1, <- F2.
+    - rewrite orb_true_r. auto.
+    - rewrite !orb_false_r. auto.
+  Qed.
+
+  Lemma render_loop_spec ds : forall st st',
+    render_loop A full cur st ds = Ok st' ->
+    exists rows, Forall2 (fun d row => row_of A full cur d = Ok row) ds rows /\
+                 rs_rows st' = rs_rows st ++ rows /\
+                 rs_sfl st' = rs_sfl st || existsb row_sfl ds /\
+                 rs_over st' = rs_over st || existsb row_over ds.
+  Proof.
+    induction ds as [|d ds IH]; intros st st' H; cbn [render_loop] in H.
+    - inversion H; subst. exists []. rewrite app_nil_r, !orb_false_r. auto.
+    - bind_as H as st1 E1. apply render_step_spec in E1 as (row & Hr & R1 & S1 & O1).
+      apply IH in H as (rows & HF & R2 & S2 & O2).
+      exists (row :: rows). split; [constructor; assumption|].
+      rewrite R2, R1, S2, S1, O2, O1, <- app_assoc. cbn [existsb app]. rewrite !orb_assoc. auto.
+  Qed.
+
+  (* the table: one row per delta, each a function of ITS delta only; the two
+     legend flags are the only state carried across rows *)
+  Theorem render_table_rows ds g tb :
+    render_table A full cur ds g = Ok tb ->
+    Forall2 (fun d row => row_of A full cur d = Ok row) ds (tb_rows tb) /\
+    tb_note_sfl tb = existsb row_sfl ds /\ tb_note_over tb = existsb row_over ds.
+  Proof.
+    unfold render_table. intros H. bind_as H as st Es. bind_as H as yv Ey. bind_as H as t Et.
+    inversion H; subst; clear H. cbn [tb_rows tb_note_sfl tb_note_over].
+    apply render_loop_spec in Es as (rows & HF & R & S & O). cbn [rs_rows rs_sfl rs_over app orb] in *.
+    subst. auto.
+  Qed.
+
+  Theorem render_table_row_local ds g tb i d :
+    render_table A full cur ds g = Ok tb -> nth_error ds i = Some d ->
+    exists row, nth_error (tb_rows tb) i = Some row /\ row_of A full cur d = Ok row.
+  Proof.
+    intros H Hi. apply render_table_rows in H as [HF _].
+    revert i Hi. induction HF as [|d0 r0 ds0 rows0 H0 HF IH]; intros [|i] Hi; cbn in Hi; try discriminate.
+    - inversion Hi; subst. exists r0. auto.
+    - apply IH in Hi. exact Hi.
+  Qed.
+
+  Theorem render_table_length ds g tb :
+    render_table A full cur ds g = Ok tb -> length (tb_rows tb) = length ds.
+  Proof.
+    intros H. apply render_table_rows in H as [HF _].
+    induction HF as [|d r ds0 rows0 _ _ IH]; cbn [length]; [reflexivity | rewrite IH; reflexivity].
+  Qed.
+
+  (* ---- the columns of one row ---- *)
+  Lemma row_of_cells d row :
+    row_of A full cur d = Ok row ->
+    exists note p aps dl,
+      sfl_note A full d = Ok note /\ row_parts A full cur d note = Ok p /\
+      acb_per_share A full d = Ok aps /\ acb_delta_cell A full d = Ok dl /\
+      row = [CSec (t_sec (d_tx d)); CDate (t_td (d_tx d)); CDate (t_sd (d_tx d)); CAct (act_of (t_act (d_tx d)));
+             rp_amount p; CShares (rp_shares p); rp_aps p; rp_acb p; rp_com p; rp_gain p; rp_bal p;
+             dl; opt_dollar_str full (s_acb (d_post d)); aps; CAff (t_af (d_tx d)); CMemo (t_ri (d_tx d))].
+  Proof.
+    unfold row_of, render_row. intros H. bind_as H as note En. bind_as H as p Ep.
+    bind_as H as aps Ea. bind_as H as dl Ed. inversion H; subst.
+    exists note, p, aps, dl. auto.
+  Qed.
+
+  Theorem row_has_16_cells d row : row_of A full cur d = Ok row -> length row = 16%nat.
+  Proof. intros H. apply row_of_cells in H as (n & p & a & dl & _ & _ & _ & _ & ->). reflexivity. Qed.
+
+  (* "New ACB/Share": the post-status cost base divided by the post-status
+     share balance OF THE ROW'S AFFILIATE (not the all-affiliate balance),
+     when that balance is positive; "-" otherwise *)
+  Theorem new_acb_per_share_cell d row :
+    row_of A full cur d = Ok row ->
+    match s_acb (d_post d) with
+    | Some acb =>
+        if Qcltb 0 (s_sh (d_post d)) then
+          exists v, a_div A acb (s_sh (d_post d)) = Ok v /\ cell_at row col_new_acb_share = dollar_str full v
+        else cell_at row col_new_acb_share = CDash
+    | None => cell_at row col_new_acb_share = CDash
+    end.
+  Proof.
+    intros H. apply row_of_cells in H as (n & p & aps & dl & _ & _ & Ha & _ & ->).
+    unfold cell_at, col_new_acb_share. cbn [nth].
+    unfold acb_per_share in Ha. destruct (Qcltb 0 (s_sh (d_post d))).
+    - destruct (s_acb (d_post d)) as [acb|]; [|inversion Ha; reflexivity].
+      bind_as Ha as v Ev. inversion Ha; subst. exists v. auto.
+    - inversion Ha; subst. destruct (s_acb (d_post d)); reflexivity.
+  Qed.
+
+  (* "ACB" (of a sale): the PRE-status cost base per share of the affiliate
+     times the shares sold; "-" when the pre-balance is not positive, for a
+     registered affiliate, and on every row that is not a sale *)
+  Theorem acb_of_sale_cell d row :
+    row_of A full cur d = Ok row ->
+    match t_act (d_tx d) with
+    | Sell sh _ _ _ _ _ =>
+        match s_acb (d_pre d) with
+        | Some acb =>
+            if Qcltb 0 (s_sh (d_pre d)) then
+              exists per v, a_div A acb (s_sh (d_pre d)) = Ok per /\ a_mul A per sh = Ok v /\
+                            cell_at row col_acb = dollar_str full v
+            else cell_at row col_acb = CDash
+        | None => cell_at row col_acb = CDash
+        end
+    | _ => cell_at row col_acb = CDash
+    end.
+  Proof.
+    intros H. apply row_of_cells in H as (n & p & aps & dl & _ & Hp & _ & _ & ->).
+    unfold cell_at, col_acb. cbn [nth].
+    unfold row_parts in Hp. destruct (t_act (d_tx d)) eqn:Ea.
+    - bind_as Hp as m Em. bind_as Hp as c1 E1. bind_as Hp as c2 E2. bind_as Hp as c3 E3.
+      inversion Hp; reflexivity.
+    - bind_as Hp as m Em. bind_as Hp as c1 E1. bind_as Hp as c2 E2. bind_as Hp as c3 E3.
+      bind_as Hp as c4 E4. bind_as Hp as c5 E5. inversion Hp; subst; clear Hp. cbn [rp_acb].
+      unfold acb_of_sale in E3. destruct (Qcltb 0 (s_sh (d_pre d))).
+      + destruct (s_acb (d_pre d)) as [acb|]; [|inversion E3; reflexivity].
+        bind_as E3 as per Eper. bind_as E3 as v Ev. inversion E3; subst. exists per, v. auto.
+      + inversion E3; subst. destruct (s_acb (d_pre d)); reflexivity.
+    - bind_as Hp as m Em. bind_as Hp as c1 E1. bind_as Hp as c2 E2. inversion Hp; reflexivity.
+    - bind_as Hp as m Em. inversion Hp; reflexivity.
+    - bind_as Hp as m Em. bind_as Hp as f Ef. inversion Hp; reflexivity.
+  Qed.
+
+  (* "Cap. Gain": the figure of THIS delta; the superficial-loss suffix is
+     present iff THIS delta is a sale with a superficial loss, and then shows
+     this delta's denied amount, its ratio, "!" iff the user's value was
+     forced, "[1]" iff potentially over-applied *)
+  Theorem gain_cell_spec d row :
+    row_of A full cur d = Ok row ->
+    match t_act (d_tx d), d_gain d with
+    | Sell _ _ _ _ _ _, Some g =>
+        exists p, plus_minus A full g false = Ok p /\
+          cell_at row col_gain =
+          CGain p (if row_sfl d then
+                     match d_sfl d with
+                     | Some i =>
+                         match plus_minus A full (sf_amount i) false with
+                         | Ok a => Some {| sn_amt := a; sn_forced := row_forced d; sn_num := sf_num i;
+                                           sn_den := sf_den i; sn_over := sf_over i |}
+                         | _ => None
+                         end
+                     | None => None
+                     end
+                   else None)
+    | _, _ => cell_at row col_gain = CDash
+    end.
+  Proof.
+    intros H. apply row_of_cells in H as (n & p & aps & dl & Hn & Hp & _ & _ & ->).
+    unfold cell_at, col_gain. cbn [nth].
+    unfold row_parts in Hp. unfold sfl_note in Hn. unfold row_sfl, row_forced.
+    destruct (t_act (d_tx d)) eqn:Ea.
+    - bind_as Hp as m Em. bind_as Hp as c1 E1. bind_as Hp as c2 E2. bind_as Hp as c3 E3.
+      inversion Hp; reflexivity.
+    - bind_as Hp as m Em. bind_as Hp as c1 E1. bind_as Hp as c2 E2. bind_as Hp as c3 E3.
+      bind_as Hp as c4 E4. bind_as Hp as c5 E5. inversion Hp; subst; clear Hp. cbn [rp_gain].
+      unfold gain_cell in E4. destruct (d_gain d) as [g|]; [|inversion E4; reflexivity].
+      bind_as E4 as pg Eg. inversion E4; subst. exists pg. split; [reflexivity|]. f_equal.
+      destruct (is_superficial_loss d) eqn:Es; [|inversion Hn; reflexivity].
+      destruct (d_sfl d) as [i|]; [|discriminate].
+      bind_as Hn as pa Epa. inversion Hn; subst. destruct sfl as [[v f]|]; reflexivity.
+    - bind_as Hp as m Em. bind_as Hp as c1 E1. bind_as Hp as c2 E2. inversion Hp; reflexivity.
+    - bind_as Hp as m Em. inversion Hp; reflexivity.
+    - bind_as Hp as m Em. bind_as Hp as f Ef. inversion Hp; reflexivity.
+  Qed.
+
+  Corollary gain_suffix_iff d row :
+    row_of A full cur d = Ok row ->
+    cell_has_suffix (cell_at row col_gain) = row_sfl d && match d_gain d with Some _ => true | None => false end /\
+    cell_has_over (cell_at row col_gain) = row_over d && match d_gain d with Some _ => true | None => false end.
+  Proof.
+    intros H. pose proof (gain_cell_spec _ _ H) as G.
+    unfold row_of in H. bind_as H as note En. clear H.
+    destruct (sfl_note_flags _ _ En) as [F1 F2].
+    unfold row_over in *. unfold row_sfl in *. unfold sfl_note in En.
+    destruct (t_act (d_tx d)); try (destruct (d_gain d); rewrite G; split; reflexivity).
+    destruct (d_gain d) as [g|]; [|rewrite G; rewrite !andb_false_r; split; reflexivity].
+    destruct G as (p & _ & ->). rewrite !andb_true_r.
+    unfold cell_has_suffix, cell_has_over, cell_suffix.
+    destruct (is_superficial_loss d); [|split; reflexivity].
+    destruct (d_sfl d) as [i|]; [|discriminate].
+    destruct (plus_minus A full (sf_amount i) false); try discriminate. split; reflexivity.
+  Qed.
+
+  (* legends: " SfL = ..." iff some row is a sale with a superficial loss,
+     " [1] ..." iff one of those is flagged over-applied; when every
+     superficial loss comes with a capital gain (as the ledger guarantees, see
+     ledger_sfl_has_gain) that is: iff some row shows the suffix / the [1] *)
+  Theorem notes_iff_suffix ds g tb :
+    render_table A full cur ds g = Ok tb ->
+    Forall (fun d => row_sfl d = true -> d_gain d <> None) ds ->
+    tb_note_sfl tb = existsb (fun row => cell_has_suffix (cell_at row col_gain)) (tb_rows tb) /\
+    tb_note_over tb = existsb (fun row => cell_has_over (cell_at row col_gain)) (tb_rows tb).
+  Proof.
+    intros H Hg. apply render_table_rows in H as (HF & -> & ->).
+    induction HF as [|d row ds rows Hr HF IH]; [split; reflexivity|].
+    inversion Hg as [|d' ds' Hd Hrest]; subst. destruct (IH Hrest) as [I1 I2].
+    cbn [existsb]. rewrite I1, I2. destruct (gain_suffix_iff _ _ Hr) as [-> ->].
+    unfold row_over. destruct (row_sfl d) eqn:Es; [|split; reflexivity].
+    specialize (Hd eq_refl). destruct (d_gain d); [|contradiction]. rewrite !andb_true_r. split; reflexivity.
+  Qed.
+
+  Theorem suffix_implies_note ds g tb i row :
+    render_table A full cur ds g = Ok tb -> nth_error (tb_rows tb) i = Some row ->
+    (cell_has_suffix (cell_at row col_gain) = true -> tb_note_sfl tb = true) /\
+    (cell_has_over (cell_at row col_gain) = true -> tb_note_over tb = true).
+  Proof.
+    intros H Hi. apply render_table_rows in H as (HF & -> & ->).
+    revert i Hi. induction HF as [|d r ds rows Hr HF IH]; intros [|i] Hi; cbn in Hi; try discriminate.
+    - inversion Hi; subst. destruct (gain_suffix_iff _ _ Hr) as [E1 E2]. cbn [existsb].
+      split; intros Hs.
+      + rewrite Hs in E1. symmetry in E1. apply andb_true_iff in E1 as [-> _]. reflexivity.
+      + rewrite Hs in E2. symmetry in E2. apply andb_true_iff in E2 as [-> _]. reflexivity.
+    - destruct (IH _ Hi) as [I1 I2]. cbn [existsb]. split; intros Hs.
+      + rewrite (I1 Hs). apply orb_true_r.
+      + rewrite (I2 Hs). apply orb_true_r.
+  Qed.
+End Rows.
